@@ -137,7 +137,11 @@ type loadResult struct {
 
 // loadAt runs the loader on an already materialised case, under a watchdog, recovering panics.
 func (lc loadCase) loadAt(root string, inMemory bool, watchdog time.Duration) loadResult {
-	cd := lc.details(root, inMemory)
+	return lc.loadDetails(lc.details(root, inMemory), watchdog)
+}
+
+// loadDetails loads a ConfigDetails value the caller built (and may share between loads).
+func (lc loadCase) loadDetails(cd types.ConfigDetails, watchdog time.Duration) loadResult {
 	done := make(chan loadResult, 1)
 	go func() {
 		var r loadResult
